@@ -106,12 +106,15 @@ def bounded(ctx, b):
         Caption(10 ** 6, 3 * 10 ** 6, [T("a")]), Caption(3 * 10 ** 6, 4 * 10 ** 6, [T("b")]), Caption(10 ** 6, 3 * 10 ** 6, [T("c")]),
         Caption(10 ** 6, 3 * 10 ** 6, [T("d")]), Caption(4 * 10 ** 6, 6 * 10 ** 6, [T("e")])])})))
     sets.append(("empty_last_language", CaptionSet({"en": CaptionList([Caption(0, 10 ** 6, [T("x")])]), "xx": CaptionList()})))
+    # one writer object per configuration for every set of the run: a document depends on the caption set and the
+    # options only, not on what the writer has written before
+    shared = [W(**opts) for W, opts in WRITER_OPTIONS]
     for name, cs in sets:
-        for W, opts in WRITER_OPTIONS:
+        for wi, (W, opts) in enumerate(WRITER_OPTIONS):
             for force in ["", cs.get_languages()[-1], "zz"]:
-                def one(W=W, opts=opts, force=force, cs=cs):
+                def one(W=W, opts=opts, force=force, cs=cs, wi=wi):
                     try:
-                        doc = W(**opts).write(cs, force=force)
+                        doc = shared[wi].write(cs, force=force)
                     except Exception as e:
                         from pycaption.exceptions import RelativizationError
                         if isinstance(e, RelativizationError):
